@@ -34,6 +34,18 @@ class multi_implicit(Sweeper):
         self.Q1 = self.get_Qdelta_implicit(qd_type=self.params.Q1)
         self.Q2 = self.get_Qdelta_implicit(qd_type=self.params.Q2)
 
+    def updateVariableCoeffs(self, k):
+        """
+        Update the Q1 / Q2 coefficients if their generators depend on the sweep index
+
+        Args:
+            k (int): index of the sweep (1 for the first one, ...)
+        """
+        for name in ['Q1', 'Q2']:
+            qd_type = getattr(self.params, name)
+            if self.buildGenerator(qd_type).isKDependent():
+                setattr(self, name, self.get_Qdelta_implicit(qd_type=qd_type, k=k))
+
     def integrate(self):
         """
         Integrates the right-hand side (two components)
